@@ -712,10 +712,12 @@ impl Game {
         }
 
         let mut push = |_move| {
-            // SAFETY: The number of possible moves on the board at any given time
-            // will never exceed the arrays capacity (256)
-            unsafe {
-                moves.push_unchecked(_move);
+            // SAFETY: Checked right here. Positions with more than 256 moves cannot arise
+            // in a real game, but the FEN reader accepts any number of queens
+            if !moves.is_full() {
+                unsafe {
+                    moves.push_unchecked(_move);
+                }
             }
         };
 
